@@ -41,6 +41,7 @@ def actors(plan, r, nh, nact=None, suspend=True, bounds=True, prios=True, io=Tru
     def slot():
         sn[0] += 1
         return 'x%d' % sn[0]
+    all_execs = []
     for ai in range(nact):
         hi = r.below(nh)
         host = 'h%d' % hi
@@ -74,6 +75,7 @@ def actors(plan, r, nh, nact=None, suspend=True, bounds=True, prios=True, io=Tru
                 ops.append(e)
                 mine.append(s)
                 execs.append(s)
+                all_execs.append((s, nth))
                 if nth and prios and r.chance(0.4):
                     # a priority update that leaves the share of a multi-thread exec unchanged (priority == thread count),
                     # at once or a little later: nothing is recomputed, the planned completion must survive
@@ -106,6 +108,17 @@ def actors(plan, r, nh, nact=None, suspend=True, bounds=True, prios=True, io=Tru
         for s in mine:
             ops.append(['wait', s])
         plan['actors'].append(dict(id='a%d' % ai, host=host, ops=ops))
+    if prios and all_execs and r.chance(0.5):
+        # a tuner living on a host of its own updates the priority of other actors' executions while their owners are
+        # blocked waiting (nothing else touches the CPU of those hosts in the meantime); skipped by the harness when the
+        # activity is not running at that date
+        plan['hosts'].append(dict(name='tun', cores=1, speeds=[1e9]))
+        tops = []
+        for _ in range(r.randint(1, 3)):
+            tops.append(['sleep', r.randint(1, 6) * 0.125])
+            s, nth = r.choice(all_execs)
+            tops.append(['set_prio', s, float(nth) if nth and r.chance(0.6) else r.choice([0.5, 1.0, 2.0, 3.0])])
+        plan['actors'].append(dict(id='tun', host='tun', ops=tops))
 
 
 def completion_dates(recs):
